@@ -1686,3 +1686,95 @@ def fixed_pad(prog, floor=2):
     if len(obs) < floor:
         raise AnalysisBroken('FIXED-PAD: only %d returns in emitters with a fixed_size parameter' % len(obs))
     return RuleResult('FIXED-PAD', obs, floor, {})
+
+
+def memo_cover(prog, floor=5):
+    """MEMO-COVER (C02): a pass-1 memo of a flag is not restricted to fewer operand kinds than the size tests that read the
+    flag.  Instance: a memo write `memory_write(asm_context->address, K, ..)` whose innermost guard is a conjunction containing
+    a flag test `X.F == 1` (F a record field).  When the guard also contains kind tests `X.type == T` the instance is decided
+    against the *decision sites*: every condition elsewhere in the file that reads field F under an enclosing test
+    `->type == T'` (or under no kind test at all) must have T' among the guard's kinds."""
+    obs = []
+    for fn, c, kind, K in memo_sites(prog):
+        if kind != 'w':
+            continue
+        # innermost enclosing if whose then-branch contains the write
+        guard = None
+        prev = c
+        for anc in fn.ancestors(c):
+            if anc['k'] == 'IfStmt' and len(kids(anc)) >= 2 and kids(anc)[1] is not None and prev['i'] == kids(anc)[1]['i']:
+                guard = kids(anc)[0]
+                break
+            prev = anc
+        if guard is None:
+            continue
+        conj = []
+        st = [strip(guard)]
+        while st:
+            x = st.pop()
+            if x['k'] == 'BinaryOperator' and x.get('op') == '&&':
+                st.extend(strip(k_) for k_ in kids(x))
+            else:
+                conj.append(x)
+        flag = None
+        kinds = set()
+        other = False
+        for x in conj:
+            if x['k'] == 'BinaryOperator' and x.get('op') == '==':
+                l, r = strip(kids(x)[0], casts=True), strip(kids(x)[1], casts=True)
+                if l['k'] == 'MemberExpr' and l.get('n') == 'type' and r['k'] == 'DeclRefExpr' and r.get('dk') == 'enum':
+                    kinds.add(r['n'])
+                    continue
+                if l['k'] == 'MemberExpr' and const(r) is not None and l.get('n') != 'pass':
+                    flag = l.get('n')
+                    continue
+            other = True
+        if flag is None:
+            continue
+        k = sum(1 for o in obs if o.file == fn.file and o.function == fn.q)
+        construct = 'memo-flag:%s#%d' % (flag, k + 1)
+        if not kinds:
+            obs.append(Ob('MEMO-COVER', fn.file, c['l'], fn.q, construct, DISCHARGED, '',
+                          'the memo is written whenever `%s` is set, for every operand kind' % flag, False))
+            continue
+        # decision sites reading the flag
+        bad = None
+        for f2 in prog.functions(lambda f: f.file == fn.file and f.blocks):
+            for b, bb in f2.blocks.items():
+                cn = f2.nodes.get(bb.get('cond')) if 'cond' in bb else None
+                if cn is None or not any(x['k'] == 'MemberExpr' and x.get('n') == flag for x in walk(cn)):
+                    continue
+                if f2.key == fn.key and any(x['i'] == guard['i'] for x in walk(cn)) or cn['i'] == guard['i']:
+                    continue
+                # enclosing kind tests
+                ctx = set()
+                prev2 = cn
+                for anc in f2.ancestors(cn):
+                    if anc['k'] == 'IfStmt' and len(kids(anc)) >= 2 and kids(anc)[1] is not None and prev2['i'] == kids(anc)[1]['i']:
+                        for x in walk(kids(anc)[0]):
+                            if x['k'] == 'BinaryOperator' and x.get('op') == '==':
+                                l, r = strip(kids(x)[0], casts=True), strip(kids(x)[1], casts=True)
+                                if l['k'] == 'MemberExpr' and l.get('n') == 'type' and r['k'] == 'DeclRefExpr' and r.get('dk') == 'enum':
+                                    ctx.add(r['n'])
+                    prev2 = anc
+                # skip the pass-2 restore `if (memory_read(...) == 1) flag = 1` and pure stores
+                if any((callee(x) or '') == 'AsmContext::memory_read' for x in walk(cn)):
+                    continue
+                if not ctx or not ctx <= kinds:
+                    bad = (f2, cn, ctx)
+                    break
+            if bad:
+                break
+        if bad:
+            f2, cn, ctx = bad
+            obs.append(Ob('MEMO-COVER', fn.file, c['l'], fn.q, construct, VIOLATED,
+                          'the pass-1 memo of `%s` is written only for operand kind(s) %s, but `%s` (%s, line %d) decides a size '
+                          'on that flag for %s: there pass 2 does not learn what pass 1 assumed and picks the short form once the '
+                          'value is known' % (flag, sorted(kinds), show(cn)[:60], f2.q, cn['l'],
+                                             ('kind ' + ', '.join(sorted(ctx))) if ctx else 'every kind')))
+        else:
+            obs.append(Ob('MEMO-COVER', fn.file, c['l'], fn.q, construct, DISCHARGED, '',
+                          'every size test on `%s` lies under the kinds %s the memo is written for' % (flag, sorted(kinds)), True))
+    if len(obs) < floor:
+        raise AnalysisBroken('MEMO-COVER: only %d flag memos' % len(obs))
+    return RuleResult('MEMO-COVER', obs, floor, {})
